@@ -35,7 +35,7 @@ def gen_case(seed):
         spec = gen.gen_busy(rnd)
         fam = "busy"
     elif rnd.random() < 0.6:
-        spec = gen.gen_det(rnd)
+        spec = gen.gen_detq(rnd) if rnd.random() < 0.3 else gen.gen_det(rnd)
         fam = "det"
     else:
         spec = gen.gen_fan(rnd, externals=False, unhandled=False)
